@@ -41,6 +41,11 @@ func usage() {
 }
 
 // solveAll discharges obligations in parallel.
+// goalQuantified: the goal (after macro expansion) contains a quantifier, possibly through a named definition.
+func (o *Obligation) goalQuantified() bool {
+	return strings.Contains(o.Goal.S, "(forall") || strings.Contains(o.Goal.S, "(exists") || strings.Contains(o.Goal.S, "soft!") || strings.Contains(o.Goal.S, "q!")
+}
+
 func solveAll(obs []*Obligation, tier string, par int) {
 	quickT, thoroughT := 10, 60
 	if p := os.Getenv("GOVC_PAR"); p != "" {
@@ -81,8 +86,8 @@ func solveAll(obs []*Obligation, tier string, par int) {
 			hasSoft := o.HasSoft()
 			if hasSoft {
 				for _, drop := range []int{2, 1} {
-					if drop == 2 && (o.Kind == "ensures" || o.Kind == "lemma" || o.Kind == "inv-preserved") {
-						continue
+					if drop == 2 && (o.Kind == "ensures" || o.Kind == "lemma" || o.Kind == "inv-preserved") && o.goalQuantified() {
+						continue // a quantified goal needs the quantified hypotheses
 					}
 					o.softDrop = drop
 					lv := Solve(o.QueryOpt(false, true), 3, false, o.Backends)
